@@ -31,6 +31,8 @@ impl Sandbox {
         let dir = PathBuf::from(format!("{}/build/sandbox/{}-{}-{}", crate::root(), tag, std::process::id(), n));
         let _ = std::fs::remove_dir_all(&dir);
         std::fs::create_dir_all(&dir).expect("sandbox dir");
+        // every child gets HOME=<sandbox>/home, like any process started from a login shell
+        std::fs::create_dir_all(dir.join("home")).expect("sandbox home");
         Sandbox { dir }
     }
     pub fn write(&self, name: &str, data: &[u8]) {
@@ -42,16 +44,28 @@ impl Sandbox {
     pub fn exists(&self, name: &str) -> bool {
         self.dir.join(name).exists()
     }
-    /// sorted (name, length, content hash) of every file: the "disk" state
+    /// sorted (relative path, length, content hash) of every file and directory below the sandbox: the "disk" state
     pub fn listing(&self) -> Vec<(String, u64, u64)> {
-        let mut v = vec![];
-        if let Ok(rd) = std::fs::read_dir(&self.dir) {
-            for e in rd.flatten() {
-                let name = e.file_name().to_string_lossy().to_string();
-                let data = std::fs::read(e.path()).unwrap_or_default();
-                v.push((name, data.len() as u64, fnv64(&data)));
+        fn walk(base: &std::path::Path, dir: &std::path::Path, v: &mut Vec<(String, u64, u64)>, depth: u32) {
+            if let Ok(rd) = std::fs::read_dir(dir) {
+                for e in rd.flatten() {
+                    let p = e.path();
+                    let name = p.strip_prefix(base).unwrap_or(&p).to_string_lossy().to_string();
+                    let is_dir = e.file_type().map(|t| t.is_dir()).unwrap_or(false);
+                    if is_dir {
+                        v.push((format!("{}/", name), 0, 0));
+                        if depth < 4 {
+                            walk(base, &p, v, depth + 1);
+                        }
+                    } else {
+                        let data = std::fs::read(&p).unwrap_or_default();
+                        v.push((name, data.len() as u64, fnv64(&data)));
+                    }
+                }
             }
         }
+        let mut v = vec![];
+        walk(&self.dir, &self.dir, &mut v, 0);
         v.sort();
         v
     }
@@ -264,6 +278,9 @@ pub fn run(sb: &Sandbox, inv: &Invocation) -> Finished {
     }
     for (k, v) in &inv.env_bytes {
         cmd.env(k, std::ffi::OsStr::from_bytes(v));
+    }
+    if !inv.env.iter().any(|(k, _)| k == "HOME") {
+        cmd.env("HOME", sb.dir.join("home"));
     }
     // a FIFO: the harness holds it open for reading and writing (so that neither side ever blocks on
     // open), puts the data in, and closes its descriptors once the child has drained the pipe or exited
